@@ -142,6 +142,7 @@ class Registry:
         self.aliases = {}          # short type name -> Type factory
         self.externals = {}        # qualified name of a library function -> python model callable
         self.external_objects = {}  # real library object -> python model callable
+        self.refs = {}
         self.inline = set()
         self._types = {}
 
@@ -180,6 +181,15 @@ class Registry:
         if ts == "list[arr1]":
             from .arrays import TArrList
             return TArrList()
+        if ts == "series":
+            from .pandas_m import TSeries
+            return TSeries()
+        if ts == "slicedict":
+            from .refs import TSliceDict
+            return TSliceDict()
+        if ts.startswith("ref:"):
+            from .refs import TRef
+            return TRef(self.refs[ts[4:]], self)
         if ts.startswith("list[") and ts.endswith("]"):
             return TList(self.type(ts[5:-1]))
         opt = ts.endswith("?")
@@ -228,6 +238,11 @@ class Registry:
         cm = ClassModel(self, qualname, fields, invariant)
         self.classes[qualname] = cm
         return cm
+
+    def declare_ref(self, name, fields, methods=None):
+        from .refs import RefModel
+        self.refs[name] = RefModel(name, fields, methods)
+        return self.refs[name]
 
     def contract(self, qualname, **kw):
         import sys
